@@ -1,15 +1,17 @@
 (* C19: shutdown timeline model.
-   Line: shutdown <wait_nonneg 0/1> <W> <G> | <arrivals...> | <service times...> [| <signal instants...> | <signal kinds...>]
-   (ns, relative to the first signal; the signal lists include the first signal; absent = one signal)
-   Output: 0 (refused at start-up) or 1 close deadline exit_time exit_code accepted... completes... *)
+   Line: shutdown <wait_nonneg 0/1> <W> <G> | <arrivals...> | <service times...> [| <signal instants...> | <signal kinds...> [| <sync 0/1...>]]
+   (ns, relative to the first signal; the signal lists include the first signal; absent = one signal; sync = the completion
+   of that request is synchronised to the process's close instant)
+   Output: 0 (refused at start-up) or 1 close deadline exit_time exit_code accepted... completes... robust *)
 open Model
 open Common
 
 let () = register "shutdown" (fun toks ->
   let zs = List.map z_of_string in
+  let go nn w g arr svc sat skind sync =
+    print_zs (entry_shutdown (nn = "1") (z_of_string w) (z_of_string g) (zs arr) (zs svc) (zs sat) (zs skind) (zs sync)) in
   match split_bar toks with
-  | [[nn; w; g]; arr; svc] ->
-    print_zs (entry_shutdown (nn = "1") (z_of_string w) (z_of_string g) (zs arr) (zs svc) [] [])
-  | [[nn; w; g]; arr; svc; sat; skind] ->
-    print_zs (entry_shutdown (nn = "1") (z_of_string w) (z_of_string g) (zs arr) (zs svc) (zs sat) (zs skind))
+  | [[nn; w; g]; arr; svc] -> go nn w g arr svc [] [] []
+  | [[nn; w; g]; arr; svc; sat; skind] -> go nn w g arr svc sat skind []
+  | [[nn; w; g]; arr; svc; sat; skind; sync] -> go nn w g arr svc sat skind sync
   | _ -> print_endline "?bad shutdown line")
